@@ -5,10 +5,10 @@ import warnings
 
 from .. import driver, par
 from ..codec import enc, dec
-from ..corr import parsercorr
+from ..corr import parsercorr, statefulparse
 from ..gen import docstrings as G
 from ..oracle import partition as O
-from ..shrink import shrink_strings
+from ..shrink import shrink_strings, shrink_list
 
 LEAN_TARGETS = ['XdocModel.Proofs.C13', 'XdocModel.Pins.Parser']
 MANIFEST = {
@@ -34,7 +34,10 @@ RULE = ('docstrings rendered from a grammar of labelled blocks (prose, blank lin
         'or ... continuations or bare ... terminator, wants of 1..3 lines incl. the bare ellipsis want, indentation 0/4/8, base '
         'indentation 0/4/8 with tabs): model op `parse` (and `label`) vs DoctestParser().parse / _label_docsrc_lines, plus the '
         'by-construction kinds and the re-join oracle; a second stream of damaged docstrings compares model and code only. '
-        'non-trivial = the docstring has at least one doctest part and one text part; distinct = distinct docstring text')
+        'non-trivial = the docstring has at least one doctest part and one text part; distinct = distinct docstring text. STATEFUL suite: '
+        'sequences over a small pool of docstrings executed in one process - parse (fresh / shared / simulate_repl parser object), '
+        'parse-then-damage-the-result, label, collect through core.parse_docstr_examples in every style, collect-and-run - every parse '
+        'checked against the re-join oracle, the first parse of that docstring and the model')
 ASSUMPTIONS = [
     'CPython ast.parse facts (statement start lines, last statement is an expression) are supplied to the model per chunk',
     'the mini-lexer stands for the vendored tokenizer; docstrings on which they could differ are compared like all others (a difference is a disagreement)',
@@ -199,8 +202,23 @@ def _shard(args):
                     out['exp'].append((text, None, prob))
         if len(out['samples']) < 1 and kind == 'grammar' and meta['examples'] and meta['wants']:
             out['samples'].append({'op': 'parse', 'docstring': text, 'intended': [e[0] for e in expected]})
+    # ---- stateful: the same docstrings parsed again and again in this process, interleaved with collection and runs
+    out['seq'] = []
+    n_seq = max(1, (n_grammar + n_fuzz) // 200)
+    for _ in range(n_seq):
+        sdocs, ops = statefulparse.gen_sequence(rng)
+        smodel = parsercorr.model_parse(sdocs, lambda lines: driver.run_lines(lines, jobs=1))
+        slabels = driver.run_lines(['label\t' + enc(d) for d in sdocs], jobs=1)
+        probs = statefulparse.run_sequence(sdocs, ops, smodel, slabels)
+        out['n'] += len(ops)
+        out['tags']['stateful:ops'] = out['tags'].get('stateful:ops', 0) + len(ops)
+        if any(o[0] in ('collect', 'run') and o[2] == 'freeform' for o in ops):
+            out['nontriv'].add(hash(('seq', tuple(sdocs), tuple(ops))))
+        if probs:
+            out['seq'].append((sdocs, [list(o) for o in ops], probs[:3]))
     out['dis'] = out['dis'][:20]
     out['exp'] = out['exp'][:20]
+    out['seq'] = out['seq'][:5]
     return out
 
 
@@ -226,6 +244,9 @@ def correspondence(ctx, corr):
                     continue
             corr.expect_fail('by-construction', {'docstring': text, 'intended': expected}, 'tiling + intended kinds', prob,
                              'the parts of a parsed docstring must re-join to its lines with the intended kinds')
+        for sdocs, ops, probs in r.get('seq', []):
+            corr.expect_fail('stateful', {'docstrings': sdocs, 'sequence': ops}, 'every parse of a docstring gives the same, correct parts',
+                             probs, 'parsing must be a function of the docstring (no state between calls)')
         for text, prob in r['harness']:
             raise RuntimeError('generator self-check failed on %r: %s' % (text, prob))
         for s in r['samples'][:1]:
@@ -319,15 +340,46 @@ def _shrink_lines(text, expected):
     return '\n'.join(lines), expected
 
 
+def _shrink_sequence(docs, ops):
+    ops = shrink_list(ops, lambda o: bool(statefulparse.fails_sequence(docs, o)), max_steps=120)
+    used = sorted(set(o[1] for o in ops))
+    remap = {old: new for new, old in enumerate(used)}
+    return [docs[i] for i in used], [[o[0], remap[o[1]]] + list(o[2:]) for o in ops]
+
+
 def search(ctx, corr, broken):
     found = []
     cands = []
     for e in corr.expect_failures:
+        if 'sequence' in e['input']:
+            docs, ops = e['input']['docstrings'], e['input']['sequence']
+            probs = statefulparse.fails_sequence(docs, ops)
+            if probs:
+                docs, ops = _shrink_sequence(docs, ops)
+                probs = statefulparse.fails_sequence(docs, ops) or probs
+                found.append({'input': {'docstrings': docs, 'sequence': ops}, 'observed': probs[0],
+                              'expected_by_spec': 'every parse of a docstring returns the same parts, which re-join to its lines '
+                              'with the right line offsets, whatever was parsed, collected, run or modified before',
+                              'api': 'the sequence of calls, in one process'})
+                if len(found) >= 2:
+                    return found
+            continue
         cands.append((e['input']['docstring'], e['input'].get('intended')))
     for d in corr.disagreements:
         if 'docstring' in d['input']:
             cands.append((d['input']['docstring'], None))
     rng = ctx.sub_rng('search')
+    if not found:
+        for _ in range(150):
+            docs, ops = statefulparse.gen_sequence(rng)
+            probs = statefulparse.fails_sequence(docs, ops)
+            if probs:
+                docs, ops = _shrink_sequence(docs, [list(o) for o in ops])
+                probs = statefulparse.fails_sequence(docs, ops) or probs
+                found.append({'input': {'docstrings': docs, 'sequence': ops}, 'observed': probs[0],
+                              'expected_by_spec': 'every parse of a docstring returns the same, correct parts',
+                              'api': 'the sequence of calls, in one process'})
+                return found
     for _ in range(3000 if ctx.quick else 20000):
         t, e, _m = G.gen_docstring(rng)
         cands.append((t, [list(x) for x in e]))
@@ -407,6 +459,8 @@ def _is_kc13c(text):
 def classify(ctx, hit):
     """narrow: the input has the shape of the finding AND the failure disappears when the trigger is neutralised"""
     i = hit.get('input') or {}
+    if 'sequence' in i:
+        return None
     text = i.get('docstring')
     if not isinstance(text, str):
         return None
@@ -457,6 +511,10 @@ def replay_finding(ctx, finding):
 
 def replay(ctx, failing):
     i = failing['input']
+    if 'sequence' in i:
+        probs = statefulparse.fails_sequence(i['docstrings'], i['sequence'])
+        print('input: docstrings=%r\n       sequence=%r\n -> %s' % (i['docstrings'], i['sequence'], probs[0] if probs else 'every parse agrees'))
+        return bool(probs)
     exp = [tuple(x) for x in i['intended']] if i.get('intended') else None
     f = _fails(i['docstring'], exp)
     print('input: docstring=%r -> %s' % (i['docstring'], f or 'agrees with the specification'))
